@@ -190,13 +190,39 @@ def _num(x):
     return x
 
 
+import enum
+
+
+class TimerNames(str, enum.Enum):
+    """timer names given as members of a str-Enum (a common way to avoid typos in names)"""
+    HEARTBEAT = "heartbeat"
+    RETRY = "retry"
+    TIMEOUT = "timeout"
+    T3 = "t3"
+    T4 = "t4"
+    T5 = "t5"
+    T6 = "t6"
+
+
+_ENUM_NAMES = list(TimerNames)
+
+
 def _tname(i):
+    if CTX.scenario.get("enum_names"):
+        return _ENUM_NAMES[i] if i < len(_ENUM_NAMES) else "n%d#" % i
     if CTX.scenario.get("odd_names"):
         return ODD_NAMES[i] if i < len(ODD_NAMES) else "n%d#" % i
     return str(i)
 
 
 def _tnum(name):
+    if CTX.scenario.get("enum_names"):
+        # what comes back must BE the name that was set: the member itself (or at least something equal to it)
+        for i, m in enumerate(_ENUM_NAMES):
+            if name is m or (type(name) is type(m) and name == m):
+                return i
+        m2 = re.fullmatch(r"n(\d+)#", str(name))
+        return int(m2.group(1)) if m2 else -1
     if CTX.scenario.get("odd_names"):
         name = str(name)
         if name in ODD_NAMES:
@@ -280,6 +306,10 @@ class ScriptedProtocol(IProtocol):
             p.schedule_timer(_tname(a[1]), _num(a[2]))
         elif k == "cancel":
             p.cancel_timer(_tname(a[1]))
+        elif k == "send" and CTX.scenario.get("raw_commands"):
+            p.send_communication_command(CommunicationCommand(0, str(a[1]), a[2]))
+        elif k == "bcast" and CTX.scenario.get("raw_commands"):
+            p.send_communication_command(CommunicationCommand(1, str(a[1])))
         elif k == "send":
             if CTX.scenario.get("reuse_commands"):
                 # one command object used as a template and re-filled for every send
@@ -299,6 +329,13 @@ class ScriptedProtocol(IProtocol):
                 p.send_communication_command(BroadcastMessageCommand(str(a[1])))
         elif k == "bcastdst":
             p.send_communication_command(CommunicationCommand(CommunicationCommandType.BROADCAST, str(a[1]), a[2]))
+        elif k in ("goto", "gotogeo", "speed") and CTX.scenario.get("raw_commands"):
+            # the generic command classes with the command type given as a plain int (e.g. rebuilt from JSON)
+            from gradysim.protocol.messages.mobility import MobilityCommand
+            if k == "speed":
+                p.send_mobility_command(MobilityCommand(3, a[1]))
+            else:
+                p.send_mobility_command(MobilityCommand(1 if k == "goto" else 2, a[1], a[2], a[3]))
         elif k in ("goto", "gotogeo", "speed") and CTX.scenario.get("reuse_commands"):
             # one long-lived command object per kind, its fields rewritten for every request
             tm = getattr(self, "_mob_tmpl", None)
@@ -501,20 +538,24 @@ def run_sim_impl(sc, variant=None):
     CTX.scenario, CTX.trace, CTX.draws = sc, [], 0
     orig_random = random.random
     stream = sc.get("stream")
-    if stream is not None:
-        it = iter(stream)
+    box = {}
 
+    def reset_random():
+        if stream is not None:
+            box["it"] = iter(stream)
+        else:
+            random.seed(sc.get("seed", 0))
+    if stream is not None:
         def scripted():
             CTX.draws += 1
-            return next(it, 0.0)
+            return next(box["it"], 0.0)
         random.random = scripted
     else:
-        random.seed(sc.get("seed", 0))
-
         def counting():
             CTX.draws += 1
             return orig_random()
         random.random = counting
+    reset_random()
     import signal
     old_handler = signal.signal(signal.SIGALRM, _alarm)
     signal.setitimer(signal.ITIMER_REAL, sc.get("time_limit", 20.0))
@@ -549,6 +590,17 @@ def run_sim_impl(sc, variant=None):
                 ids.append(b.add_node(PROTO[nd["ty"]], tuple(_num(float(v)) for v in nd["pos"])))
             if ids != list(range(len(ids))):
                 CTX.trace.append("ids %s" % ids)
+            if sc.get("rerun") and sc["drv"][0] == "run":
+                # the scenario is first run once to its end from the same builder (same handler objects); what is
+                # recorded is the SECOND run, which must be what a fresh run is
+                first = b.build()
+                try:
+                    first.start_simulation()
+                except FailedAssertionException:
+                    pass
+                del CTX.trace[:]
+                CTX.draws = 0
+                reset_random()
             if sc.get("build_twice"):
                 b.build()                   # "build the scenario again": the first simulator is simply dropped
             sim = b.build()
